@@ -196,4 +196,14 @@ theorem c11_container_check_is_source_check :
 example : Generated.containerCheck true true [none, some false, some true] = some false ∧
           Generated.containerCheck true true [none, some true] = some true := by decide
 
+/-- **The offsets of the pack infos are the source's**: `PackOffsetsIter::new` / `next`
+    (`reader/manifest_pack.rs`, used by `ManifestPack::new` and by `tools::set_location`), translated on every
+    run and run until exhaustion, enumerate exactly `packInfosOffset checkInfoPos count + k * 256`, `k < count` —
+    the offsets the model reads the pack infos at and rewrites a location at. -/
+theorem c11_pack_info_offsets_are_source_offsets (cip count : Nat) :
+    drainOffsets packInfoBlockSize (count + 1) (Generated.packOffsetsNew packInfoBlockSize cip count).1
+        (Generated.packOffsetsNew packInfoBlockSize cip count).2 =
+      (List.range count).map (fun k => packInfosOffset cip count + k * packInfoBlockSize) :=
+  gen_packOffsets cip count
+
 end Jubako
